@@ -149,7 +149,7 @@ fn main() {
                 };
                 scen::graph_scenario(i, &mut srng, &o, family)
             }
-            "doc" | "doctext" | "docinv" | "histdoc" | "reload" | "rollback" | "iso" | "diff" | "patch" | "ids" | "idshi" | "migrate" | "badargs" | "isorich" | "serde" | "bulk" | "anon" => {
+            "doc" | "doctext" | "docinv" | "histdoc" | "reload" | "rollback" | "iso" | "diff" | "patch" | "ids" | "idshi" | "migrate" | "badargs" | "isorich" | "serde" | "bulk" | "spans" | "anon" => {
                 if family == "isorich" {
                     amverif::proj::set_rich(true);
                 }
@@ -161,6 +161,15 @@ fn main() {
                 if family == "badargs" {
                     prof.marks = true;
                     prof.texts = true;
+                }
+                if family == "spans" {
+                    prof.bulk = true;
+                    prof.spans = true;
+                    prof.texts = true;
+                    prof.lists = false;
+                    prof.marks = i % 2 == 1;
+                    prof.unicode = i % 3 == 0;
+                    prof.max_objs = 4;
                 }
                 if family == "bulk" {
                     prof.bulk = true;
